@@ -2,6 +2,7 @@
   C20 — Flavour conversion and Waiwera export keep the model, drop only what they say.
 -/
 import PyTough.Proofs.ConvertSpec
+import PyTough.Proofs.ConvertWaiwera
 namespace Props.C20
 open Py Model.Convert Gen.ConvertTables Proofs.Convert
 
@@ -99,5 +100,604 @@ theorem to_tough2_generators (mp : Bool) (d d' : T2) (h : convertToTough2 mp d =
       refine ⟨convGen_id g, convGen_block g, convGen_name g, convGen_payload g, ?_⟩
       unfold convGen
       cases convert.lookup g.type <;> rfl
+
+
+/-- The lookup after conversion holds exactly the former entries that do not point to a deleted
+    generator (for a lookup whose keys are distinct and whose entries carry the block and name of
+    the generator they point to): unsupported generators leave the lookup as well as the list. -/
+theorem to_tough2_lookup (mp : Bool) (d d' : T2) (h : convertToTough2 mp d = (d', none))
+    (hk : (d.gendict.map (·.1)).Nodup)
+    (hwf : ∀ e ∈ d.gendict, ∀ g ∈ d.gens, g.id = e.2 → (g.block, g.name) = e.1)
+    (e : (Str × Str) × Nat) :
+    e ∈ d'.gendict ↔ e ∈ d.gendict ∧ ∀ g ∈ d.gens, toDelete g = true → g.id ≠ e.2 := by
+  obtain ⟨st, _, rfl⟩ := convertToTough2_ok h
+  exact convertGenerators_lookup d hk hwf e
+
+/-- List and lookup stay consistent: if every lookup entry pointed to a listed generator with
+    that block and name, it still does. -/
+theorem to_tough2_list_lookup_consistent (mp : Bool) (d d' : T2) (h : convertToTough2 mp d = (d', none))
+    (hid : (d.gens.map (·.id)).Nodup) (hk : (d.gendict.map (·.1)).Nodup)
+    (hwf : ∀ e ∈ d.gendict, ∀ g ∈ d.gens, g.id = e.2 → (g.block, g.name) = e.1)
+    (hin : ∀ e ∈ d.gendict, ∃ g ∈ d.gens, g.id = e.2) :
+    ∀ e ∈ d'.gendict, ∃ g ∈ d'.gens, g.id = e.2 ∧ (g.block, g.name) = e.1 := by
+  intro e he
+  have hgens := (to_tough2_generators mp d d' h hid).1
+  have hl := (to_tough2_lookup mp d d' h hk hwf e).mp he
+  obtain ⟨g, hg, hge⟩ := hin e hl.1
+  have hnd : toDelete g = false := by
+    cases hd : toDelete g with
+    | false => rfl
+    | true => exact absurd hge (hl.2 g hg hd)
+  refine ⟨convGen g, ?_, ?_, ?_⟩
+  · rw [hgens]
+    exact List.mem_map.mpr ⟨g, List.mem_filter.mpr ⟨hg, by simp [hnd]⟩, rfl⟩
+  · rw [convGen_id]; exact hge
+  · rw [convGen_block, convGen_name]; exact hwf e hl.1 g hg hge
+
+/-- Grid, the other sections' data and SOLVR data are untouched; the history lists are the former
+    short-output lists (where SHORT had such a list; otherwise they stay as they were). -/
+theorem to_tough2_keeps_grid_and_history (mp : Bool) (d d' : T2) (h : convertToTough2 mp d = (d', none)) :
+    d'.blocks = d.blocks ∧ d'.other = d.other ∧ d'.solver = d.solver ∧
+    d'.histBlock = d.short.block.getD d.histBlock ∧
+    d'.histCon = d.short.con.getD d.histCon ∧
+    d'.histGen = d.short.gen.getD d.histGen := by
+  obtain ⟨st, _, rfl⟩ := convertToTough2_ok h
+  exact ⟨rfl, rfl, rfl, rfl, rfl, rfl⟩
+
+/-- Rock types: names, porosities and everything else stay; conductivities are multiplied by
+    (1 − porosity) exactly when MOP(10) = 2, and are otherwise unchanged.  (Called through
+    `convert_to_TOUGH2` the MOP(23) rule can never fire, because the simulator string has
+    already been cleared; `params_a2t_rocks` below covers the parameter converter on its own.) -/
+theorem to_tough2_rocks (mp : Bool) (d d' : T2) (h : convertToTough2 mp d = (d', none)) :
+    d'.rocks = (if optAt d.option 10 = 2 then scaleRocks d.rocks else d.rocks) ∧
+    d'.rocks.map (·.name) = d.rocks.map (·.name) ∧
+    d'.rocks.map (·.porosity) = d.rocks.map (·.porosity) ∧
+    d'.rocks.map (·.payload) = d.rocks.map (·.payload) ∧
+    (scaleRocks d.rocks).map (·.conductivity) = d.rocks.map (fun r => r.conductivity * (1 - r.porosity)) := by
+  obtain ⟨st, _, rfl⟩ := convertToTough2_ok h
+  have hs := scaleRocks_fields d.rocks
+  by_cases h10 : optAt d.option 10 = 2
+  · have : (tough2Of mp st d).rocks = scaleRocks d.rocks := by
+      simp [tough2Of, h10, Nat.repeat]
+    rw [this, if_pos h10]
+    exact ⟨rfl, hs.1, hs.2.1, hs.2.2.1, hs.2.2.2⟩
+  · have : (tough2Of mp st d).rocks = d.rocks := by
+      simp [tough2Of, h10, Nat.repeat]
+    rw [this, if_neg h10]
+    exact ⟨rfl, rfl, rfl, rfl, hs.2.2.2⟩
+
+/-- The parameter converter called on its own (the simulator string still set): the number of
+    rescalings is `condCount` — MOP(10)=2, plus MOP(23)=1 for AUTOUGH2 (not AUTOUGH2.2) / MULKOM. -/
+theorem params_a2t_rocks (mp : Bool) (d d' : T2) (h : convParamsA2T mp d = (d', none)) :
+    d'.rocks = Nat.repeat scaleRocks (condCount d.simulator (optAt d.option 10) (optAt d.option 23)) d.rocks := by
+  unfold convParamsA2T at h
+  simp only at h
+  split at h
+  · cases h
+  · cases h; rfl
+
+/-- MOP digits: position by position, as `specA2T` says, for every option vector.  MOP(21)
+    becomes 4 or 5 according to the LINEQ type (0 under MP). -/
+theorem to_tough2_mop (mp : Bool) (d d' : T2) (h : convertToTough2 mp d = (d', none)) :
+    ∃ st, solverTypeOfLineq d.lineq = .ok st ∧
+      ∀ i, d'.option[i]? = (d.option[i]?).map (specA2T mp st i) := by
+  obtain ⟨st, hst, rfl⟩ := convertToTough2_ok h
+  exact ⟨st, hst, fun i => mopA2T_pointwise mp st d.option i⟩
+
+/-- ... and `specA2T` is what the real converter does to every digit 0..9 at every position, MP off
+    and on (`tblMopA2T*` are evaluated on /repo's current code by the translator on every run). -/
+theorem mop_a2t_matches_code :
+    (List.range 25).all (fun i => (List.range 10).all fun x =>
+      specA2T false 4 i x == (((tblMopA2T.getD i []).getD x 99 : Nat) : Int) &&
+      specA2T true 4 i x == (((tblMopA2TMP.getD i []).getD x 99 : Nat) : Int)) = true :=
+  mop_table_a2t
+
+/-! ### the file round trip of the history requests
+
+  Full statement (not provable, and false on the real code — known finding
+  `goft-generator-request-lost-on-roundtrip`): *every* history list of the converted model is read
+  back unchanged from the lines written for it.  Proved: this holds for FOFT and COFT, and for GOFT
+  when the short output had no generator list (so `history_generator` holds no `t2generator`). -/
+theorem to_tough2_history_roundtrip_partial (mp : Bool) (d d' : T2) (cons : List (Str × Str))
+    (h : convertToTough2 mp d = (d', none))
+    (hb : allGridBlocks d.blocks (d.short.block.getD d.histBlock) = true)
+    (hc : allGridCons cons (d.short.con.getD d.histCon) = true)
+    (hg : allGridBlocks d.blocks (d.short.gen.getD d.histGen) = true)   -- excludes t2generator items
+    (hne : d.blocks ≠ []) :
+    (∃ ls, writeNames d'.histBlock = some ls ∧ readNames d'.blocks ls = d'.histBlock) ∧
+    (∃ ls, writeCons d'.histCon = some ls ∧ readCons d'.blocks cons ls = d'.histCon) ∧
+    (∃ ls, writeNames d'.histGen = some ls ∧ readNames d'.blocks ls = d'.histGen) := by
+  obtain ⟨e1, _, _, e2, e3, e4⟩ := to_tough2_keeps_grid_and_history mp d d' h
+  rw [e1, e2, e3, e4]
+  exact ⟨readNames_writeNames_blocks _ _ (allGridBlocks_spec _ _ hb), readCons_writeCons _ _ _ hne (allGridCons_spec _ _ hc),
+         readNames_writeNames_blocks _ _ (allGridBlocks_spec _ _ hg)⟩
+
+/-- the excluded class is where the real code fails: a model whose short output lists a generator -/
+def witnessA : T2 :=
+  { simulator := "AUTOUGH2.2EW".toList, sections := [SIMUL, ROCKS, PARAM, ELEME, CONNE, GENER, SHORT],
+    blocks := ["  a 1".toList, "  b 1".toList],
+    gens := [{ id := 1, block := "  a 1".toList, name := "wel 1".toList, type := "MASS".toList, payload := 0 }],
+    gendict := [(("  a 1".toList, "wel 1".toList), 1)],
+    short := { gen := some [.gen 1 "  a 1".toList "wel 1".toList] } }
+
+theorem goft_generator_request_lost :
+    let d' := (convertToTough2 false witnessA).1
+    d'.histGen = [.gen 1 "  a 1".toList "wel 1".toList] ∧
+    writeNames d'.histGen = some ["wel 1".toList] ∧          -- the generator's name is written under GOFT
+    readNames d'.blocks ["wel 1".toList] = [] := by decide   -- and is not a block: the request is gone
+
+/-! ## TOUGH2 → AUTOUGH2 (the mirror image) -/
+
+/-- The converted model declares itself AUTOUGH2: the simulator string is the given name padded
+    to 10 columns followed by the EOS, there is a LINEQ type from the table, MULTI (if present)
+    names the EOS, and no SOLVR data or history list is left. -/
+theorem to_autough2_declares_autough2 (mp : Bool) (sim eos : Str) (d d' : T2)
+    (h : convertToAutough2 mp sim eos d = (d', none)) :
+    d'.type = AUTOUGH2 ∧ d'.simulator = ljust sim 10 ++ eos ∧ d'.solver = [] ∧
+    d'.histBlock = [] ∧ d'.histCon = [] ∧ d'.histGen = [] ∧
+    (∃ ty, Dict.get? d'.lineq kType = some (.int ty) ∧ ty ∈ lineqTypes) ∧
+    (d.multi ≠ [] → Dict.get? d'.multi kEos = some (.str eos)) ∧ (d.multi = [] → d'.multi = []) := by
+  obtain ⟨ty, hty, rfl⟩ := convertToAutough2_ok h
+  refine ⟨?_, rfl, rfl, rfl, rfl, rfl, ⟨ty, newLineq_type ty, lineqTypeOf_mem _ _ hty⟩, multiT2A_eos eos d.multi, ?_⟩
+  · show (if (ljust sim 10 ++ eos).isEmpty then TOUGH2 else AUTOUGH2) = AUTOUGH2
+    rw [ljust_append_ne_nil]; rfl
+  · intro hm
+    show multiNumInc (multiSetEos eos d.multi) = []
+    rw [hm]; rfl
+
+/-- It raises only when the SOLVR type is not an integer. -/
+theorem to_autough2_succeeds (mp : Bool) (sim eos : Str) (d : T2)
+    (h : mp = true ∨ Dict.get? d.solver kType = none ∨ ∃ i, Dict.get? d.solver kType = some (.int i)) :
+    ∃ d', convertToAutough2 mp sim eos d = (d', none) := by
+  rw [convertToAutough2_eq]
+  have : ∃ ty, lineqTypeOf (solverTypeT2A mp d.solver d.option) = .ok ty := by
+    unfold solverTypeT2A
+    rcases h with h | h | ⟨i, h⟩
+    · rw [h]; exact ⟨_, rfl⟩
+    · cases mp
+      · rw [h]; exact ⟨_, rfl⟩
+      · exact ⟨_, rfl⟩
+    · cases mp
+      · rw [h]; exact ⟨_, rfl⟩
+      · exact ⟨_, rfl⟩
+  obtain ⟨ty, hty⟩ := this
+  rw [hty]
+  exact ⟨_, rfl⟩
+
+/-- Sections: SIMUL and LINEQ are listed (SIMUL first when it was not listed before); no SOLVR,
+    FOFT, COFT or GOFT data is present, so `write` prints none of them. -/
+theorem to_autough2_sections (mp : Bool) (sim eos : Str) (d d' : T2)
+    (h : convertToAutough2 mp sim eos d = (d', none)) :
+    SIMUL ∈ d'.sections ∧ LINEQ ∈ d'.sections ∧
+    (SIMUL ∉ d.sections → d'.sections = insertSectionL (SIMUL :: d.sections) LINEQ) ∧
+    (∀ k ∈ [SOLVR, FOFT, COFT, GOFT], k ∉ presentSections d' ∧ k ∉ (updateSections d').sections) ∧
+    (∀ k ∈ [SIMUL, LINEQ], k ∈ presentSections d' ∧ k ∈ (updateSections d').sections) := by
+  obtain ⟨ty, hty, rfl⟩ := convertToAutough2_ok h
+  refine ⟨?_, ?_, ?_, ?_, ?_⟩
+  · show SIMUL ∈ insertSectionL (insertSectionL d.sections SIMUL) LINEQ
+    rw [mem_insertSectionL, mem_insertSectionL]; exact Or.inr (Or.inl rfl)
+  · show LINEQ ∈ insertSectionL (insertSectionL d.sections SIMUL) LINEQ
+    rw [mem_insertSectionL]; exact Or.inl rfl
+  · intro hs
+    show insertSectionL (insertSectionL d.sections SIMUL) LINEQ = _
+    rw [insert_SIMUL _ hs]
+  · intro k hk
+    rw [mem_updateSections, mem_presentSections]
+    have : dataPresent (autough2Of mp sim eos ty d) k = false := by
+      simp only [List.mem_cons, List.mem_nil_iff, or_false] at hk
+      rcases hk with rfl | rfl | rfl | rfl
+      · rw [dataPresent_SOLVR]; rfl
+      · rw [dataPresent_FOFT]; rfl
+      · rw [dataPresent_COFT]; rfl
+      · rw [dataPresent_GOFT]; rfl
+    simp [this]
+  · intro k hk
+    rw [mem_updateSections, mem_presentSections]
+    have : k ∈ sections ∧ dataPresent (autough2Of mp sim eos ty d) k = true := by
+      simp only [List.mem_cons, List.mem_nil_iff, or_false] at hk
+      rcases hk with rfl | rfl
+      · refine ⟨by decide, ?_⟩
+        rw [dataPresent_SIMUL]
+        show (!(ljust sim 10 ++ eos).isEmpty) = true
+        rw [ljust_append_ne_nil]; rfl
+      · refine ⟨by decide, ?_⟩
+        rw [dataPresent_LINEQ]
+        show (!(newLineq ty).isEmpty) = true
+        simp [newLineq, lineqKeys]
+    exact ⟨this, this⟩
+
+/-- Grid, rock types, generators and their lookup are untouched. -/
+theorem to_autough2_keeps_model (mp : Bool) (sim eos : Str) (d d' : T2)
+    (h : convertToAutough2 mp sim eos d = (d', none)) :
+    d'.blocks = d.blocks ∧ d'.rocks = d.rocks ∧ d'.gens = d.gens ∧ d'.gendict = d.gendict ∧ d'.other = d.other := by
+  obtain ⟨ty, _, rfl⟩ := convertToAutough2_ok h
+  exact ⟨rfl, rfl, rfl, rfl, rfl⟩
+
+/-- MOP digits, position by position (`specT2A`), and the table evaluated on the real code. -/
+theorem to_autough2_mop (mp : Bool) (sim eos : Str) (d d' : T2)
+    (h : convertToAutough2 mp sim eos d = (d', none)) :
+    ∀ i, d'.option[i]? = (d.option[i]?).map (specT2A mp i) := by
+  obtain ⟨ty, _, rfl⟩ := convertToAutough2_ok h
+  exact fun i => mopT2A_pointwise mp d.option i
+
+theorem mop_t2a_matches_code :
+    (List.range 25).all (fun i => (List.range 10).all fun x =>
+      specT2A false i x == (((tblMopT2A.getD i []).getD x 99 : Nat) : Int) &&
+      specT2A true i x == (((tblMopT2AMP.getD i []).getD x 99 : Nat) : Int)) = true :=
+  mop_table_t2a
+
+/-- The history requests become the short output: block objects of FOFT, connection objects of
+    COFT and generator objects of GOFT are kept in their order (a list with no such item gives no
+    key); bare names are dropped, as documented. -/
+theorem to_autough2_short (mp : Bool) (sim eos : Str) (d d' : T2)
+    (h : convertToAutough2 mp sim eos d = (d', none)) :
+    d'.short.freq = none ∧
+    d'.short.block = keepNonEmpty (d.histBlock.filter Item.isBlk) ∧
+    d'.short.con = keepNonEmpty (d.histCon.filter Item.isCon) ∧
+    d'.short.gen = keepNonEmpty (d.histGen.filter Item.isGen) := by
+  obtain ⟨ty, _, rfl⟩ := convertToAutough2_ok h
+  exact ⟨rfl, rfl, rfl, rfl⟩
+
+/-- Full statement (not provable; false on the real code — known finding
+    `goft-block-request-dropped-to-autough2`): every history request that refers to an object is
+    still requested in the short output.  Proved: for FOFT and COFT always; for GOFT only vacuously,
+    i.e. when `history_generator` is empty. -/
+theorem to_autough2_requests_kept_partial (mp : Bool) (sim eos : Str) (d d' : T2)
+    (h : convertToAutough2 mp sim eos d = (d', none)) (hg : d.histGen = []) :
+    (∀ it ∈ d.histBlock, it.isBlk = true → ∃ l, d'.short.block = some l ∧ it ∈ l) ∧
+    (∀ it ∈ d.histCon, it.isCon = true → ∃ l, d'.short.con = some l ∧ it ∈ l) ∧
+    (∀ it ∈ d.histGen, ∃ l, d'.short.gen = some l ∧ it ∈ l) := by
+  obtain ⟨hf, hb, hc, _⟩ := to_autough2_short mp sim eos d d' h
+  refine ⟨?_, ?_, ?_⟩
+  · intro it hi hk
+    have hm : it ∈ d.histBlock.filter Item.isBlk := List.mem_filter.mpr ⟨hi, hk⟩
+    refine ⟨_, ?_, hm⟩
+    rw [hb]; unfold keepNonEmpty
+    cases hl : d.histBlock.filter Item.isBlk with
+    | nil => rw [hl] at hm; cases hm
+    | cons _ _ => rfl
+  · intro it hi hk
+    have hm : it ∈ d.histCon.filter Item.isCon := List.mem_filter.mpr ⟨hi, hk⟩
+    refine ⟨_, ?_, hm⟩
+    rw [hc]; unfold keepNonEmpty
+    cases hl : d.histCon.filter Item.isCon with
+    | nil => rw [hl] at hm; cases hm
+    | cons _ _ => rfl
+  · intro it hi
+    rw [hg] at hi; cases hi
+
+/-- the excluded class is where the real code fails: a GOFT request as `read` stores it -/
+def witnessT : T2 :=
+  { sections := [ROCKS, PARAM, ELEME, CONNE, GENER, GOFT], blocks := ["  a 1".toList],
+    gens := [{ id := 1, block := "  a 1".toList, name := "wel 1".toList, type := "MASS".toList, payload := 0 }],
+    gendict := [(("  a 1".toList, "wel 1".toList), 1)],
+    histGen := [.blk "  a 1".toList] }
+
+theorem goft_block_request_dropped :
+    (convertToAutough2 false defaultSimulator defaultEos witnessT).1.short.gen = none ∧
+    (convertToAutough2 false defaultSimulator defaultEos witnessT).1.histGen = [] := by decide
+
+/-! ## the `type` property -/
+
+/-- Setting `type` converts exactly when the flavour differs (with the default arguments), leaves
+    the object alone when it does not, and rejects any other string. -/
+theorem type_setter_dispatch (v : Str) (d : T2) :
+    setType v d =
+      if v = AUTOUGH2 ∨ v = TOUGH2 then
+        (if d.type = v then (d, none)
+         else if v = TOUGH2 then convertToTough2 false d
+         else convertToAutough2 false defaultSimulator defaultEos d)
+      else (d, some .generic) := by
+  unfold setType
+  rw [type_names_table]
+  have hne : AUTOUGH2 ≠ TOUGH2 := by decide
+  by_cases h1 : v = AUTOUGH2
+  · subst h1
+    simp only [List.contains_cons, beq_self_eq_true, Bool.true_or, if_true, true_or]
+    by_cases ht : d.type = AUTOUGH2
+    · simp [ht]
+    · have : d.type = TOUGH2 := by
+        unfold T2.type at ht ⊢
+        split <;> simp_all
+      simp [this, hne, Ne.symm hne]
+  · by_cases h2 : v = TOUGH2
+    · subst h2
+      have hc : [AUTOUGH2, TOUGH2].contains TOUGH2 = true := by decide
+      simp only [hc, if_true, or_true]
+      by_cases ht : d.type = TOUGH2
+      · simp [ht]
+      · have : d.type = AUTOUGH2 := by
+          unfold T2.type at ht ⊢
+          split <;> simp_all
+        simp [this, hne]
+    · have hc : [AUTOUGH2, TOUGH2].contains v = false := by simp [h1, h2]
+      simp [h1, h2]
+
+
+/-! ## Waiwera export -/
+
+section Waiwera
+open Model.Waiwera Proofs.Waiwera
+
+/-- Rock cells: when `rocks_json` returns, block number `i` of the geometry (cell `i − nAtm`)
+    occurs exactly once in the cell list of its own rock type if `0 < volume < atmos_volume`, and in
+    no other list; a boundary block (zero or huge volume) occurs in none.  There is one list per
+    rock type. -/
+theorem rock_cells_partition (rockNames geoNames : List Str) (nAtm : Nat) (blocks : List WBlock) (atmos : Rat)
+    (cells : List (List Int)) (h : rockCells rockNames geoNames nAtm blocks atmos = .ok cells)
+    (hn : geoNames.Nodup) (i : Nat) (hi : i < geoNames.length) (b : WBlock)
+    (hb : findBlock blocks geoNames[i] = some b) (r : Nat) :
+    cells.length = rockNames.length ∧
+    (cells.getD r []).count ((i : Int) - nAtm) =
+      if interior atmos b = true ∧ lastIdx rockNames b.rock = some r then 1 else 0 :=
+  rock_cells_count rockNames geoNames nAtm blocks atmos cells h hn i hi b hb r
+
+/-- ... and a non-boundary block always has such a list: `rocks_json` cannot return without having
+    found the block's rock type among the rock types. -/
+theorem rock_cells_own_type_exists (rockNames geoNames : List Str) (nAtm : Nat) (blocks : List WBlock) (atmos : Rat)
+    (cells : List (List Int)) (h : rockCells rockNames geoNames nAtm blocks atmos = .ok cells)
+    (n : Str) (hm : n ∈ geoNames) :
+    ∃ b, findBlock blocks n = some b ∧ (interior atmos b = true → ∃ r, lastIdx rockNames b.rock = some r) := by
+  unfold rockCells at h
+  generalize (rockNames.map fun _ => ([] : List Int)) = init at h
+  have key : ∀ (todo : List Str) (cs res : List (List Int)),
+      rockCellsLoop rockNames geoNames nAtm blocks atmos todo cs = .ok res → n ∈ todo →
+      ∃ b, findBlock blocks n = some b ∧ (interior atmos b = true → ∃ r, lastIdx rockNames b.rock = some r) := by
+    intro todo
+    induction todo with
+    | nil => intro _ _ _ hm; cases hm
+    | cons m rest ih =>
+      intro cs res hl hm
+      unfold rockCellsLoop at hl
+      cases hb : findBlock blocks m with
+      | none => rw [hb] at hl; cases hl
+      | some b =>
+        rw [hb] at hl
+        simp only at hl
+        cases hi : lastIdx geoNames b.name with
+        | none => rw [hi] at hl; cases hl
+        | some i =>
+          rw [hi] at hl
+          simp only at hl
+          by_cases hint : interior atmos b = true
+          · rw [if_pos hint] at hl
+            cases hr : lastIdx rockNames b.rock with
+            | none => rw [hr] at hl; cases hl
+            | some r0 =>
+              rw [hr] at hl
+              rcases List.mem_cons.mp hm with rfl | hm'
+              · exact ⟨b, hb, fun _ => ⟨r0, hr⟩⟩
+              · exact ih _ _ hl hm'
+          · rw [if_neg hint] at hl
+            rcases List.mem_cons.mp hm with rfl | hm'
+            · exact ⟨b, hb, fun hc => absurd hc hint⟩
+            · exact ih _ _ hl hm'
+  exact key geoNames init cells h hm
+
+/-- the boundary blocks `boundaries_json` looks at are exactly the blocks left out of the rock cells -/
+theorem boundary_blocks_complement (blocks : List WBlock) (atmos : Rat) (b : WBlock) (hb : b ∈ blocks) :
+    b.name ∈ boundaryBlocks blocks atmos ∨ interior atmos b = true := by
+  by_cases h : interior atmos b = true
+  · exact Or.inr h
+  · left
+    unfold boundaryBlocks
+    exact List.mem_map.mpr ⟨b, List.mem_filter.mpr ⟨hb, by simpa using h⟩, rfl⟩
+
+/-- Sources: when `generators_json` returns, `source` has exactly one entry per generator whose
+    type is not the group type (TMAK), in order, and the entry's `cell` is `cellOf` of the
+    generator's block; no generator has an unsupported type. -/
+theorem sources_spec (geoNames : List Str) (nAtm : Nat) (gens : List Gener) (dictSize : Nat) (ss : List Source)
+    (h : sources geoNames nAtm gens dictSize = .ok ss) :
+    ss.map (·.cell) = (gens.filter (fun g => g.type != groupType)).map (fun g => cellOf geoNames nAtm g.block) ∧
+    ss.length = (gens.filter (fun g => g.type != groupType)).length ∧
+    ∀ g ∈ gens, unsupportedGenTypes.contains g.type = false := by
+  unfold sources at h
+  have h1 := sourcesLoop_cells _ _ _ _ _ _ _ h
+  simp only [List.map_nil, List.nil_append] at h1
+  refine ⟨h1, ?_, sourcesLoop_supported _ _ _ _ _ _ _ h⟩
+  have := congrArg List.length h1
+  simpa using this
+
+/-- `cellOf` is the cell index of the block: position in the geometry's block list minus the
+    number of atmosphere blocks; `None` for an atmosphere block or a block the geometry lacks. -/
+theorem source_cell_is_block_index (geoNames : List Str) (nAtm : Nat) (hn : geoNames.Nodup) :
+    (∀ i (hi : i < geoNames.length), cellOf geoNames nAtm geoNames[i] = if i < nAtm then none else some ((i : Int) - nAtm)) ∧
+    (∀ b, b ∉ geoNames → cellOf geoNames nAtm b = none) := by
+  refine ⟨?_, ?_⟩
+  · intro i hi
+    unfold cellOf
+    rw [lastIdx_getElem geoNames hn i hi]
+    simp only
+    by_cases h : i < nAtm
+    · have : (i : Int) - nAtm < 0 := by omega
+      simp [h, this]
+    · have : ¬ (i : Int) - nAtm < 0 := by omega
+      simp [h, this]
+  · intro b hb
+    unfold cellOf
+    rw [(lastIdx_none geoNames b).mpr hb]
+
+/-- EOS given explicitly by a supported name. -/
+theorem eos_explicit (s w : Str) (multi : Dict) (sim : Str) (n : Nat) (hs : s ≠ [])
+    (h : supportedEos.lookup s = some w) (hw : w = ['w'] → 2 ≤ n) :
+    eosJson (.name s) multi sim n = .ok { name := w, tracer := tracerEos.contains s } := by
+  unfold eosJson aut2EosName
+  have : s.isEmpty = false := by cases s <;> simp_all
+  simp only [this, Bool.false_eq_true, if_false, h]
+  split
+  · rename_i hc; exact absurd (hw hc.1) (by omega)
+  · rfl
+
+/-- EOS given by the MULTI entry: it wins over whatever the simulator string says. -/
+theorem eos_from_multi (s w : Str) (multi : Dict) (sim : Str) (n : Nat)
+    (hm : Dict.get? multi kEos = some (.str s)) (hs : strip s ≠ [])
+    (h : supportedEos.lookup (strip s) = some w) (hw : w = ['w'] → 2 ≤ n) :
+    eosJson .none multi sim n = .ok { name := w, tracer := tracerEos.contains (strip s) } := by
+  have hne : multi.isEmpty = false := by
+    cases multi with
+    | nil => simp [Dict.get?] at hm
+    | cons _ _ => rfl
+  have hsne : s.isEmpty = false := by
+    cases s with
+    | nil => exact absurd rfl hs
+    | cons _ _ => rfl
+  have hfm : eosFromMulti multi = strip s := by
+    unfold eosFromMulti
+    simp [hne, hm, hsne]
+  have hst : (strip s).isEmpty = false := by
+    cases hh : strip s with
+    | nil => exact absurd hh hs
+    | cons _ _ => rfl
+  unfold eosJson aut2EosName
+  simp only [hfm, hst, Bool.false_and, Bool.false_eq_true, if_false, h]
+  split
+  · rename_i hc; exact absurd (hw hc.1) (by omega)
+  · rfl
+
+/-- EOS given only by the simulator string (no usable MULTI entry): the name picked is a supported
+    key that ends the simulator string, and every supported key that ends the simulator string is
+    a suffix of it — i.e. it is the longest supported suffix (`AUTOUGH2.2EW` gives EW, not W). -/
+theorem eos_from_simulator (multi : Dict) (sim : Str) (hm : eosFromMulti multi = []) (hs : sim ≠ []) :
+    aut2EosName .none multi sim = eosFromSimulator sim ∧
+    (∀ k ∈ supportedEos, k.1 <:+ sim → k.1 <:+ eosFromSimulator sim) ∧
+    (eosFromSimulator sim = [] ∨ ∃ e ∈ supportedEos, eosFromSimulator sim = e.1 ∧ e.1 <:+ sim) := by
+  have hsim : sim.isEmpty = false := by cases sim <;> simp_all
+  refine ⟨?_, ?_, ?_⟩
+  · unfold aut2EosName
+    simp [hm, hsim]
+  · intro k hk hks
+    exact key_suffix_foldl sim supportedEos [] supportedEos_laterLonger k hk hks
+  · exact foldl_is_key_or_acc sim supportedEos []
+
+/-- hence a simulator string that ends in a supported EOS name is recognised -/
+theorem eos_detected_from_simulator (multi : Dict) (sim : Str) (n : Nat) (hm : eosFromMulti multi = [])
+    (k : Str × Str) (hk : k ∈ supportedEos) (hks : k.1 <:+ sim) (hn : 2 ≤ n) :
+    ∃ o, eosJson .none multi sim n = .ok o ∧ ∃ e ∈ supportedEos, o.name = e.2 ∧ k.1 <:+ e.1 ∧ e.1 <:+ sim := by
+  have hkne : k.1 ≠ [] := by
+    have : ∀ e ∈ supportedEos, e.1 ≠ [] := by decide
+    exact this k hk
+  have hs : sim ≠ [] := by
+    intro h0
+    rw [h0] at hks
+    exact hkne (List.suffix_nil.mp hks)
+  obtain ⟨h1, h2, h3⟩ := eos_from_simulator multi sim hm hs
+  have hsuf := h2 k hk hks
+  rcases h3 with h0 | ⟨e, he, hee, hes⟩
+  · rw [h0] at hsuf
+    exact absurd (List.suffix_nil.mp hsuf) hkne
+  · have hl : supportedEos.lookup e.1 = some e.2 := by
+      have : ∀ e ∈ supportedEos, supportedEos.lookup e.1 = some e.2 := by decide
+      exact this e he
+    have hene : (e.1).isEmpty = false := by
+      have : ∀ e ∈ supportedEos, (e.1).isEmpty = false := by decide
+      exact this e he
+    refine ⟨{ name := e.2, tracer := tracerEos.contains e.1 }, ?_, e, he, rfl, by rw [← hee]; exact hsuf, hes⟩
+    unfold eosJson
+    rw [h1, hee]
+    simp only [hene, Bool.false_eq_true, if_false, hl]
+    split
+    · rename_i hc; exact absurd hc.2 (by omega)
+    · rfl
+
+end Waiwera
+
+/-! ## the hypotheses are satisfiable: concrete models (these are tests of non-vacuity, not proofs of the property) -/
+
+section Examples
+open Model.Waiwera Proofs.Waiwera
+
+/-- an AUTOUGH2 model: supported, convertible and unsupported generators, a duplicated (block, name),
+    MOP(10) = 2, LINEQ type 3, short output with blocks and connections -/
+def sampleA : T2 :=
+  { filename := "model.dat".toList, simulator := "AUTOUGH2.2EW".toList,
+    sections := [SIMUL, ROCKS, PARAM, LINEQ, MULTI, ELEME, CONNE, GENER, SHORT],
+    multi := [("num_components".toList, .int 1), (kEos, .str "EW".toList)],
+    lineq := [(kType, .int 3)],
+    option := [0,0,0,0,0,0,0,0,0,0,2,0,2,0,3,0,0,0,0,0,0,0,7,1,1],
+    rocks := [{ name := "rock0".toList, porosity := 1/4, conductivity := 5/2, payload := 900 }],
+    blocks := ["  a 1".toList, "  b 1".toList],
+    gens := [{ id := 1, block := "  a 1".toList, name := "wel 1".toList, type := "MASS".toList, payload := 11 },
+             { id := 2, block := "  b 1".toList, name := "wel 2".toList, type := "DELG".toList, payload := 12 },
+             { id := 3, block := "  b 1".toList, name := "inj 1".toList, type := "CO2 ".toList, payload := 13 },
+             { id := 4, block := "  a 1".toList, name := "wel 1".toList, type := "RECH".toList, payload := 14 }],
+    gendict := [(("  a 1".toList, "wel 1".toList), 4), (("  b 1".toList, "wel 2".toList), 2), (("  b 1".toList, "inj 1".toList), 3)],
+    short := { freq := some (.int 2), block := some [.blk "  a 1".toList], con := some [.con "  a 1".toList "  b 1".toList] } }
+
+def sampleA' : T2 := (convertToTough2 false sampleA).1
+
+example : convertToTough2 false sampleA = (sampleA', none) := by decide +kernel
+example : sampleA.lineq = [] ∨ ∃ i, Dict.get? sampleA.lineq kType = some (.int i) := Or.inr ⟨3, by decide⟩
+example : sampleA.sections.Nodup := by decide
+example : (sampleA.gens.map (·.id)).Nodup := by decide
+example : (sampleA.gendict.map (·.1)).Nodup := by decide
+example : ∀ e ∈ sampleA.gendict, ∀ g ∈ sampleA.gens, g.id = e.2 → (g.block, g.name) = e.1 := by decide
+example : ∀ e ∈ sampleA.gendict, ∃ g ∈ sampleA.gens, g.id = e.2 := by decide
+-- what comes out: MASS kept, CO2 converted, DELG and RECH gone from list and lookup, conductivity 5/2 · 3/4
+example : sampleA'.gens.map (·.type) = ["MASS".toList, "COM2".toList] ∧ sampleA'.gendict.map (·.2) = [3] ∧
+    sampleA'.rocks.map (·.conductivity) = [15/8] ∧ sampleA'.sections = [ROCKS, PARAM, MULTI, ELEME, CONNE, GENER, SHORT] ∧
+    sampleA'.option = [0,0,0,0,0,0,0,0,0,0,0,0,0,0,3,0,0,0,0,0,0,5,0,0,0] ∧
+    (updateSections sampleA').sections = [ROCKS, PARAM, MULTI, ELEME, CONNE, GENER, FOFT, COFT] := by decide +kernel
+-- hypotheses of the round-trip theorem
+example : allGridBlocks sampleA.blocks (sampleA.short.block.getD sampleA.histBlock) = true ∧
+    allGridCons [("  a 1".toList, "  b 1".toList)] (sampleA.short.con.getD sampleA.histCon) = true ∧
+    allGridBlocks sampleA.blocks (sampleA.short.gen.getD sampleA.histGen) = true ∧ sampleA.blocks ≠ [] := by decide
+/-- a TOUGH2 model as read from a file: SOLVR type 3, history lists with objects and a bare name -/
+def sampleT : T2 :=
+  { filename := "model".toList, sections := [ROCKS, PARAM, SOLVR, ELEME, CONNE, GENER, FOFT, COFT],
+    solver := [(kType, .int 3), ("z_precond".toList, .str "Z1".toList)],
+    multi := [("num_components".toList, .int 1)],
+    option := [0,0,0,0,0,0,0,0,0,0,0,0,2,0,0,0,0,0,0,0,0,5,3,0,1],
+    rocks := [{ name := "rock0".toList, porosity := 1/4, conductivity := 5/2, payload := 900 }],
+    blocks := ["  a 1".toList, "  b 1".toList],
+    gens := [{ id := 1, block := "  a 1".toList, name := "wel 1".toList, type := "COM2".toList, payload := 11 }],
+    gendict := [(("  a 1".toList, "wel 1".toList), 1)],
+    histBlock := [.blk "  a 1".toList, .str "zzz 9".toList], histCon := [.con "  a 1".toList "  b 1".toList] }
+
+def sampleT' : T2 := (convertToAutough2 false defaultSimulator defaultEos sampleT).1
+
+example : convertToAutough2 false defaultSimulator defaultEos sampleT = (sampleT', none) := by decide +kernel
+example : Dict.get? sampleT.solver kType = some (.int 3) := by decide
+example : sampleT.histGen = [] ∧ SIMUL ∉ sampleT.sections ∧ sampleT.multi ≠ [] := by decide
+example : sampleT'.simulator = "AUTOUGH2.2EW".toList ∧ sampleT'.filename = "model.dat".toList ∧
+    sampleT'.sections = [SIMUL, ROCKS, PARAM, LINEQ, SOLVR, ELEME, CONNE, GENER, FOFT, COFT] ∧
+    (updateSections sampleT').sections = [SIMUL, ROCKS, PARAM, LINEQ, MULTI, ELEME, CONNE, GENER, SHORT] ∧
+    sampleT'.short.block = some [.blk "  a 1".toList] ∧ Dict.get? sampleT'.lineq kType = some (.int 2) ∧
+    sampleT'.option = [0,0,0,0,0,0,0,0,0,0,0,0,0,0,0,0,0,0,0,0,0,0,0,0,0] := by decide
+-- the type setter on both samples
+example : (setType TOUGH2 sampleA).1 = sampleA' ∧ (setType AUTOUGH2 sampleT).1 = sampleT' ∧
+    setType TOUGH2 sampleT = (sampleT, none) ∧ (setType "TOUGH3".toList sampleA).2 = some .generic := by decide +kernel
+
+/-- a 2 × 1 × 2 geometry with one atmosphere block: block 3 has zero volume, block 4 a huge one -/
+def sampleGeo : List Str := ["ATM 0".toList, "  a 1".toList, "  b 1".toList, "  a 2".toList, "  b 2".toList]
+def sampleBlocks : List WBlock :=
+  [{ name := "ATM 0".toList, rock := "rock0".toList, volume := 10000000000000000000000000 },
+   { name := "  a 1".toList, rock := "rock0".toList, volume := 250 },
+   { name := "  b 1".toList, rock := "rock1".toList, volume := 250 },
+   { name := "  a 2".toList, rock := "rock1".toList, volume := 0 },
+   { name := "  b 2".toList, rock := "rock0".toList, volume := 1000000000000000000000000000000 }]
+
+example : rockCells ["rock0".toList, "rock1".toList] sampleGeo 1 sampleBlocks 10000000000000000000000000
+    = .ok [[0], [1]] := by decide +kernel
+example : sampleGeo.Nodup ∧ findBlock sampleBlocks sampleGeo[2] = some sampleBlocks[2] := by decide
+example : boundaryBlocks sampleBlocks 10000000000000000000000000 = ["ATM 0".toList, "  a 2".toList, "  b 2".toList] := by
+  decide +kernel
+example : sources sampleGeo 1
+    [{ id := 1, block := "  b 1".toList, name := "wel 1".toList, type := "MASS".toList, payload := 0 },
+     { id := 2, block := "ATM 0".toList, name := "wel 1".toList, type := "DELG".toList, payload := 0 },
+     { id := 3, block := "  b 1".toList, name := "".toList, type := "TMAK".toList, payload := 0 },
+     { id := 4, block := "zzz 9".toList, name := "wel 1".toList, type := "RECH".toList, payload := 0 }] 4
+    = .ok [{ name := "wel 1".toList, cell := some 1 }, { name := "wel 1_1".toList, cell := none },
+           { name := "wel 1_2".toList, cell := none }] := by decide
+example : eosJson .none [] "AUTOUGH2.2EW".toList 2 = .ok { name := "we".toList, tracer := false } ∧
+    eosJson .none [("num_components".toList, .int 1)] "MULKOMEWAV".toList 2 = .ok { name := "wae".toList, tracer := false } ∧
+    eosJson .none [(kEos, .str " EWC".toList)] "AUTOUGH2.2EW".toList 3 = .ok { name := "wce".toList, tracer := false } ∧
+    eosJson (.idx 4) [] [] 0 = .ok { name := "wae".toList, tracer := false } ∧
+    eosJson (.name "EWT".toList) [] [] 0 = .ok { name := "we".toList, tracer := true } ∧
+    eosJson .none [] "AUTOUGH2.2".toList 2 = .error .generic ∧
+    eosJson (.name "W".toList) [] [] 1 = .error .indexError := by decide
+example : eosFromMulti [("num_components".toList, .int 1)] = [] ∧ ("EW".toList, "we".toList) ∈ supportedEos ∧
+    "EW".toList <:+ "AUTOUGH2.2EW".toList := ⟨by decide, by decide, ⟨"AUTOUGH2.2".toList, by decide⟩⟩
+
+end Examples
 
 end Props.C20
